@@ -148,6 +148,8 @@ def w_charges(na):
 KINDS = ["list2", "mol", "list3", "atoms2", "ens", "empty", "atoms0", "mol_n3", "list1", "natoms", "kw", "xyz", "mol2", "struct", "clib"]
 KIND_NC = {"list1": 1, "list2": 2, "list3": 3, "mol": None, "mol_n3": 3, "ens": 2, "atoms2": 2, "atoms0": 0, "natoms": 2, "empty": 0, "kw": 2, "xyz": 2, "mol2": 2, "struct": None, "clib": 3}
 
+KIND_CLASS = {"list1": "molecule-list", "list2": "molecule-list", "list3": "molecule-list", "mol": "molecule", "mol_n3": "molecule", "ens": "ensemble", "atoms2": "atom-list", "atoms0": "atom-list", "kw": "atom-list+arrays", "natoms": "n_atoms", "empty": "no-arguments", "xyz": "loads_xyz", "mol2": "loads_mol2", "struct": "structure", "clib": "library-read"}
+
 APPEND_SRC = ["M0", "own0", "E2c1", "Mx"]
 EXTEND_SRC = ["L1", "L2", "E2", "self", "ownslice", "gen", "L0"]
 TFS = ["tr1", "tr2", "rot", "rotn", "scale2", "invert", "center_atom", "center_core"]
@@ -211,7 +213,7 @@ class ESys:
     def opclass(self, st, op):
         k = op[0]
         if k == "new":
-            return f"new[{op[1]}]"
+            return f"new[{KIND_CLASS[op[1]]}]"
         if k == "append":
             return f"append[{self._srcclass(st, op[1])}]"
         if k == "extend":
@@ -331,12 +333,11 @@ class ESys:
             ops.append(("tf", t))
         # ---- writes through a conformer ------------------------------------------------------
         if nc:
-            rows = sorted({0, nc - 1})
             whats = self.rot(WRITES) if (self.full or not live) else ["c_el"]
             for what in whats:
                 if what in ("c_el", "q_el") and na == 0:
                     continue
-                for i in rows:
+                for i in range(nc) if what in ("c_el", "q_el") else sorted({0, nc - 1}):
                     routes = ROUTES if (what in ("c_el", "q_all") and i == nc - 1) else ["idx"]
                     for r in routes:
                         ops.append(("w", r, i, what))
@@ -872,10 +873,10 @@ class ESys:
             routes.append((nc - 1, "slice", lambda: e[::-1][0]))
         try:
             if len(e[0:nc]) != nc or len(e[:]) != nc or len(e[1:]) != max(nc - 1, 0):
-                self.viol(st, op, f"{oc}:slice-length-differs", f"len(ens[0:nc]) != nc={nc}")
+                self.viol(st, op, "view[slice]:slice-length-differs", f"len(ens[0:nc]) != nc={nc}")
                 ok = False
         except Exception as ex:
-            self.viol(st, op, f"{oc}:slice-raised-{exc_name(ex)}", f"slicing the ensemble raised {exc_name(ex)}: {ex}")
+            self.viol(st, op, f"view[slice]:raised-{exc_name(ex)}", f"slicing the ensemble raised {exc_name(ex)}: {ex}")
             return False
         for i, route, get in routes:
             try:
@@ -897,22 +898,22 @@ class ESys:
                         d = float(np.linalg.norm(st.mc[i, 0] - st.mc[i, 1]))
                         fields["distance"] = close(np.array(c.distance(0, 1)), np.array(d), 1e-9)
             except Exception as ex:
-                self.viol(st, op, f"{oc}:conformer-read-raised-{exc_name(ex)}", f"reading through ens[{route}] raised {exc_name(ex)}: {ex}")
+                self.viol(st, op, f"view[{route}]:conformer-read-raised-{exc_name(ex)}", f"reading through ens[{route}] raised {exc_name(ex)}: {ex}")
                 return False
             badf = sorted(k for k, v in fields.items() if not v)
             if badf:
-                self.viol(st, op, f"{oc}:conformer-view-differs[{','.join(badf)}]", f"ens[{i}] (route {route}) does not show row {i}: {badf}")
+                self.viol(st, op, f"view[{route}]:conformer-view-differs[{','.join(badf)}]", f"after {list(op)}: ens[{i}] (route {route}) does not show row {i}: {badf}")
                 ok = False
                 break
         # ---- nothing else changed -------------------------------------------------------------
         cur = self._foreign(st)
         for (n, cls, a, q), (n2, cls2, a0, q0) in zip(cur, st.fsnap):
             if not eqnan(a, a0) or not eqnan(q, q0):
-                self.viol(st, op, f"{oc}:changed-{cls}", f"after {list(op)} the {cls} {n} (not part of the ensemble) has changed")
+                self.viol(st, op, f"{oc}:changed-argument-object", f"after {list(op)} the {cls} {n} (not part of the ensemble) has changed")
                 ok = False
                 break
         if not eqnan(st.e2.weights, st.fsnap[-1][2]):
-            self.viol(st, op, f"{oc}:changed-argument-ensemble", "weights of the argument ensemble changed")
+            self.viol(st, op, f"{oc}:changed-argument-object", "weights of the argument ensemble changed")
             ok = False
         if ok and alias:
             ok = self._alias_probe(st, op, oc)
@@ -953,7 +954,7 @@ class ESys:
         except Exception:
             pass
         if changed:
-            self.viol(st, op, f"{oc}:conformer-write-changes-{hit[1]}", f"after {list(op)} a write through ens[i] also changes the {hit[1]} {hit[0]} (shared array)")
+            self.viol(st, op, f"{oc}:conformer-write-changes-argument-object", f"after {list(op)} a write through ens[i] also changes the {hit[1]} {hit[0]} (shared array)")
         else:
             self.ctx.add_note("alias_probe_unconfirmed")
         return False
@@ -1293,14 +1294,14 @@ def run(ctx):
     ]
     if thorough:
         plan = [
-            dict(na=2, ncmax=5, nit=3, depth=8, full=True, kinds=KINDS, label="na2"),
-            dict(na=1, ncmax=4, nit=2, depth=7, full=True, kinds=KINDS, label="na1"),
-            dict(na=3, ncmax=4, nit=2, depth=7, full=True, kinds=KINDS, label="na3"),
+            dict(na=2, ncmax=5, nit=3, depth=10, full=True, kinds=KINDS, label="na2"),
+            dict(na=1, ncmax=4, nit=2, depth=8, full=True, kinds=KINDS, label="na1"),
+            dict(na=3, ncmax=4, nit=2, depth=8, full=True, kinds=KINDS, label="na3"),
         ]
     else:
         plan = [
-            dict(na=2, ncmax=4, nit=2, depth=int(os.environ.get("C14_DEPTH", "7")), full=True, kinds=KINDS, label="na2"),
-            dict(na=1, ncmax=3, nit=2, depth=5, full=False, kinds=["list2", "mol", "atoms2", "empty", "ens"], label="na1"),
+            dict(na=2, ncmax=4, nit=2, depth=6, full=True, kinds=KINDS, label="na2"),
+            dict(na=1, ncmax=3, nit=2, depth=4, full=False, kinds=["list2", "mol", "atoms2", "empty", "ens"], label="na1"),
         ]
     for p in plan:
         mk = lambda c, p=p: ESys(c, na=p["na"], ncmax=p["ncmax"], nit=p["nit"], label=p["label"], kinds=p["kinds"], full=p["full"])
